@@ -184,10 +184,18 @@ static void gen_ple(opcase_t *c, rng_t *r, int maxdim) {
     int t = rng_int(r, 0, 11);
     if (t == 0) n = 1;
     if (t == 1) m = 1;
+    /* the base case works on a strip of at least 8 words beyond the current column and updates the columns to the right of it
+     * (A10 / A11 / process_rows beyond `splitblock`) separately: that code only does anything for matrices wider than 512 + 7k
+     * columns, whatever the size bound of the stage, so a share of the cases is wide and short */
+    if ((t == 2 || t == 3) && maxdim >= 200 && v != P_PLE_NAIVE && v != P_PLUQ_NAIVE) {
+      n = 513 + rng_int(r, 0, 500);
+      m = rng_int(r, 2, 150);
+    }
   }
   char d[96];
   int kind;
   c->in[0] = gen_elim_input(r, m, n, d, sizeof d, NULL, &kind);
+  if (n > 512 + 56) hx_tag("ple_beyond_splitblock");
   static const int RK[] = {0, 0, 2, 3, 4, 5, 6, 7, 8};
   c->ip[0] = CUTOFFS[rng_int(r, 0, NCUT - 1)];
   c->ip[1] = RK[rng_int(r, 0, 8)];
